@@ -174,12 +174,20 @@ class ClassTable:
         if kind == "typed":
             return _mk_typeddict(name, d, self)
         if kind == "plain":
+            # opaque objects: like locks, generators or handles they can be neither copied nor pickled
+            def _no_copy(self, *a, **k):
+                raise TypeError(f"cannot copy / pickle a {name} object")
+            ns = {"__copy__": _no_copy, "__deepcopy__": _no_copy, "__reduce_ex__": _no_copy, "__reduce__": _no_copy}
             if d.get("hashable", True):
-                return type(name, (), {"__repr__": lambda s: f"<{name}>"})
-            return type(name, (), {"__eq__": lambda s, o: s is o, "__hash__": None})
+                return type(name, (), {"__repr__": lambda s: f"<{name}>", **ns})
+            return type(name, (), {"__eq__": lambda s, o: s is o, "__hash__": None, **ns})
         if kind == "sub":
             base = {"str": str, "int": int, "dict": dict, "list": list, "float": float,
                     "tuple": tuple, "bytes": bytes, "set": set}[d["base"]]
+            if base is dict:
+                # like collections.defaultdict: a *read* of an absent key fabricates a value and stores it;
+                # membership tests and .get() do not
+                return type(name, (base,), {"__missing__": lambda self, k: self.setdefault(k, [])})
             return type(name, (base,), {})
         raise HarnessError(f"class kind {kind}")
 
@@ -728,6 +736,11 @@ class Ctx:
             _, rk, cid, schema, vobj, avobj, strict, co = t
             cls = ct.classes[cid.k]
             overrides = {to_py(p.a, ct): self.validator(p.b.a) for p in schema}
+            if len(overrides) > 1 and self.rng.random() < 0.5:
+                # the order in which overrides are written is the caller's business: it must not matter
+                items = list(overrides.items())
+                self.rng.shuffle(items)
+                overrides = dict(items)
             kw = dict(
                 overrides=overrides,
                 validate_object=None if vobj is None else U.UOBJ[vobj.x.k],
@@ -741,7 +754,7 @@ class Ctx:
             # the model uses the class's declared requiredness, the object whatever it derived)
             got = [k for (k, _f, _req) in v._fast_keys_sync]
             want = [to_py(p.a, ct) for p in schema]
-            if got != want:
+            if sorted(map(repr, got)) != sorted(map(repr, want)):
                 raise HarnessError(f"ClassV key mismatch: object has {got}, term has {want}")
             return v
         if c == "UnionV":
